@@ -178,10 +178,12 @@ class Assembler:
         sig = src.text[f['sig_start']:f['body_open']].rstrip()
         body = src.text[f['body_open']:f['body_close'] + 1]
         sha = src.sha(f['sig_start'], f['body_close'] + 1)
-        opt = dict(ret=None, stub=False, twin='', rules=None, drops=[], subs=[], sigsubs=[])
+        opt = dict(ret=None, stub=False, twin='', rules=None, drops=[], subs=[], sigsubs=[], tail=False)
         for o_ in opts:
             if o_ == 'stub':
                 opt['stub'] = True
+            elif o_ == 'tail':
+                opt['tail'] = True
             elif o_.startswith('ret='):
                 opt['ret'] = o_[4:]
             elif o_.startswith('twin='):
@@ -214,7 +216,7 @@ class Assembler:
         cur = None
         for l in spec:
             st = l.strip()
-            mm = re.match(r'//@(loop|closure|after|before)\s+(.*)', st)
+            mm = re.match(r'//@(loop|closure|afterblock|after|before)\s+(.*)', st)
             if mm:
                 cur = dict(kind=mm.group(1), arg=mm.group(2).strip(), text=[])
                 sections.append(cur)
@@ -251,6 +253,8 @@ class Assembler:
             log.append(dict(rule='SUB', before=a, after=b))
             body = body.replace(a, b)
         body = rewrite.apply_rules(body, log, opt['rules'])
+        if opt['tail']:
+            body = rewrite.rule_R14(body, log)
         plain = body
         # ---- splice spec sections (spec text only)
         body = self._splice(body, sections, qn)
@@ -358,24 +362,45 @@ class Assembler:
                     raise LostAnchor('%s: closure %d not found' % (qn, n))
                 h = hits[n - 1]
                 body = body[:h.start()] + ' '.join(t.strip() for t in sec['text']) + ' ' + body[h.end():]
-            elif sec['kind'] in ('after', 'before'):
+            elif sec['kind'] in ('after', 'before', 'afterblock'):
                 snippet = sec['arg'].strip('"')
                 m = mask(body)
-                p = body.find(snippet)
+                mo = re.fullmatch(r'(\w+)#(\d+)', snippet)
+                if mo:
+                    hits = [h.start() for h in re.finditer(r'\b' + mo.group(1) + r'\b', m)]
+                    p = hits[int(mo.group(2)) - 1] if int(mo.group(2)) <= len(hits) else -1
+                else:
+                    p = body.find(snippet)
                 if p < 0:
                     raise LostAnchor('%s: hint anchor %r lost' % (qn, snippet))
+                ins = '\n' + '\n'.join(sec['text']) + '\n'
                 if sec['kind'] == 'after':
                     e = p
                     while e < len(m) and m[e] != ';':
                         if m[e] in '([{':
                             e = match_close(m, e)
                         e += 1
-                    ins = '\n' + '\n'.join(sec['text']) + '\n'
+                    body = body[:e + 1] + ins + body[e + 1:]
+                elif sec['kind'] == 'afterblock':
+                    # end of the block statement starting at p (if/else chain, match, loop, while)
+                    e = p
+                    while True:
+                        while e < len(m) and m[e] != '{':
+                            if m[e] in '([':
+                                e = match_close(m, e)
+                            e += 1
+                        e = match_close(m, e)
+                        nxt = e + 1
+                        while nxt < len(m) and m[nxt] in ' \t\n':
+                            nxt += 1
+                        if m.startswith('else', nxt):
+                            e = nxt + 4
+                            continue
+                        break
                     body = body[:e + 1] + ins + body[e + 1:]
                 else:
                     k = p - 1
                     while k >= 0 and m[k] not in ';{}':
                         k -= 1
-                    ins = '\n' + '\n'.join(sec['text']) + '\n'
                     body = body[:k + 1] + ins + body[k + 1:]
         return body
